@@ -81,9 +81,12 @@ def replay(ctx, path):
     binp = ctx.build("clientconfig")
     rp = json.load(open(path))
     case = rp["case"]
-    if "event" in case:
-        tr = ctx.tlc_trace("Trace_ClientConfig", [case["event"]])
-        bad = bool(tr.bad) or not tr.accepted
+    if "event" in case:      # redo the recorded inputs against the real code, then let TLC judge the fresh observation
+        pin, pout = os.path.join(ctx.out, "event-in.ndjson"), os.path.join(ctx.out, "event-out.ndjson")
+        vp.write_ndjson(pin, [case["event"]])
+        s = ctx.run_json(binp, ["reexec", pin, pout])
+        tr = ctx.tlc_trace("Trace_ClientConfig", pout)
+        bad = bool(tr.bad) or not tr.accepted or bool(s["mismatches"])
     else:
         p = os.path.join(ctx.out, "one.ndjson")
         vp.write_ndjson(p, [case])
